@@ -43,8 +43,15 @@ fn capped_exponential(
     if initial.is_zero() {
         return Duration::ZERO;
     }
-    let exponent = i32::try_from(attempt).unwrap_or(i32::MAX);
-    let secs = initial.as_secs_f64() * multiplier.powi(exponent);
+    // Attempt numbers beyond i32::MAX still matter for multipliers so close to 1 that the cap is
+    // not reached by then: the exponent must keep growing (never below the last powi value)
+    let factor = match i32::try_from(attempt) {
+        Ok(exponent) => multiplier.powi(exponent),
+        Err(_) => multiplier
+            .powf(attempt as f64)
+            .max(multiplier.powi(i32::MAX)),
+    };
+    let secs = initial.as_secs_f64() * factor;
     // `!(secs < cap)` also catches NaN and infinity
     if !(secs < cap.as_secs_f64()) {
         cap
